@@ -255,6 +255,29 @@ example :
         = .mismatch 1 ⟨12, 4⟩ ⟨16, 8⟩ := by
   decide
 
+/-- non-vacuity of `check_layout_sound`: an accepted module with consistent type ids and a use the property names -/
+example :
+    Consistent ⟨[⟨.object "StructuredBuffer" (some ⟨1, sG⟩), "g"⟩], [⟨some "ByteAddressBufferLoadT", some [.type ⟨1, sG⟩]⟩]⟩ ∧
+    checkLayout ⟨[⟨.object "StructuredBuffer" (some ⟨1, sG⟩), "g"⟩], [⟨some "ByteAddressBufferLoadT", some [.type ⟨1, sG⟩]⟩]⟩ = .ok ∧
+    PropertyUse ⟨[⟨.object "StructuredBuffer" (some ⟨1, sG⟩), "g"⟩], [⟨some "ByteAddressBufferLoadT", some [.type ⟨1, sG⟩]⟩]⟩ ⟨1, sG⟩ ∧
+    wf sG = true := by
+  refine ⟨?_, by decide, ?_, by decide⟩
+  · have key : ∀ x : TyRef, Matched ⟨[⟨.object "StructuredBuffer" (some ⟨1, sG⟩), "g"⟩],
+        [⟨some "ByteAddressBufferLoadT", some [.type ⟨1, sG⟩]⟩]⟩ x → x = ⟨1, sG⟩ := by
+      intro x hx
+      rcases hx with ⟨g, hg, k, hk, _⟩ | ⟨f, hf, i, _, _, ht⟩
+      · simp only [List.mem_singleton] at hg
+        subst hg
+        simp only [removeModifier, GTy.object.injEq, Option.some.injEq] at hk
+        exact hk.2.symm
+      · simp only [List.mem_singleton] at hf
+        subst hf
+        simp only [Option.some.injEq, List.cons.injEq, TArg.type.injEq, and_true] at ht
+        exact ht.symm
+    intro r r' h h' _
+    rw [key r h, key r' h']
+  · exact .buffer _ (List.mem_singleton.2 rfl) "StructuredBuffer" (by decide) rfl
+
 end collection
 
 /-! ## The full type universe: `bool`, matrices (all scalars, 1–4 rows and columns, `row_major` /
